@@ -6,28 +6,57 @@ Local Open Scope string_scope.
 Local Open Scope list_scope.
 
 (* For every note key K and every linking directory D — given as their segment lists, any
-   length, any relation between the two (equal, nested either way, siblings, disjoint) — the
-   url `to_rel_link_url` writes for K from D is resolved by `from_rel_link_url`, from D, to
-   exactly K. *)
+   length, any relation between the two (equal, nested either way, siblings, disjoint), the key
+   ending in `.md` or not — the url iwe WRITES for K from D (`ref_url` of `to_rel_link_url`: with
+   the configured extension `.md` or none, and with `.md` all the same where the url itself ends
+   in `.md`) is resolved by `from_rel_link_url`, from D, to exactly K. *)
 Theorem C15_roundtrip :
+  forall (ks ds : list string) (ext : string),
+    Forall good_name ks -> Forall good_name ds -> ext = MD \/ ext = "" ->
+    from_rel_link_url (ref_url (to_rel_link_url (join SEPS ks) (join SEPS ds)) ext) (join SEPS ds) = join SEPS ks.
+Proof. exact roundtrip_written. Qed.
+
+Check C15_roundtrip :
+  forall (ks ds : list string) (ext : string),
+    Forall good_name ks -> Forall good_name ds -> ext = MD \/ ext = "" ->
+    from_rel_link_url (ref_url (to_rel_link_url (join SEPS ks) (join SEPS ds)) ext) (join SEPS ds) = join SEPS ks.
+Print Assumptions C15_roundtrip.
+
+(* The url as `to_rel_link_url` returns it, without any extension, resolves back as long as the
+   key does not end in `.md` (the url `x.md` names the note `x`). *)
+Theorem C15_roundtrip_bare :
   forall ks ds : list string,
     Forall good_name ks -> Forall good_name ds ->
     ends_with MD (join SEPS ks) = false ->
     from_rel_link_url (to_rel_link_url (join SEPS ks) (join SEPS ds)) (join SEPS ds) = join SEPS ks.
 Proof. exact roundtrip_canonical. Qed.
 
-Check C15_roundtrip :
+Check C15_roundtrip_bare :
   forall ks ds : list string,
     Forall good_name ks -> Forall good_name ds ->
     ends_with MD (join SEPS ks) = false ->
     from_rel_link_url (to_rel_link_url (join SEPS ks) (join SEPS ds)) (join SEPS ds) = join SEPS ks.
-Print Assumptions C15_roundtrip.
+Print Assumptions C15_roundtrip_bare.
 
-(* the hypotheses are satisfiable by a non-trivial pair (sibling directories) *)
+(* ... and the hypothesis is needed there: the key `x.md` (file `x.md.md`), which `ref_url` writes `x.md.md` *)
+Theorem C15_roundtrip_bare_md_refuted :
+  from_rel_link_url (to_rel_link_url "x.md" "") "" = "x" /\
+  ref_url (to_rel_link_url "x.md" "") "" = "x.md.md" /\
+  from_rel_link_url (ref_url (to_rel_link_url "x.md" "") "") "" = "x.md".
+Proof. exact roundtrip_md_key. Qed.
+
+Check C15_roundtrip_bare_md_refuted :
+  from_rel_link_url (to_rel_link_url "x.md" "") "" = "x" /\
+  ref_url (to_rel_link_url "x.md" "") "" = "x.md.md" /\
+  from_rel_link_url (ref_url (to_rel_link_url "x.md" "") "") "" = "x.md".
+Print Assumptions C15_roundtrip_bare_md_refuted.
+
+(* the hypotheses are satisfiable by a non-trivial pair (sibling directories; a key ending in `.md`) *)
 Example C15_roundtrip_nonvacuous :
-  Forall good_name ["d"; "e"; "note"] /\ Forall good_name ["d"; "f"] /\
-  ends_with MD (join SEPS ["d"; "e"; "note"]) = false /\
-  to_rel_link_url "d/e/note" "d/f" = "../e/note".
+  Forall good_name ["d"; "e"; "note.md"] /\ Forall good_name ["d"; "f"] /\
+  to_rel_link_url "d/e/note.md" "d/f" = "../e/note.md" /\
+  ref_url "../e/note.md" "" = "../e/note.md.md" /\ ref_url "../e/note" "" = "../e/note" /\
+  ref_url "../e/note" MD = "../e/note.md".
 Proof.
   repeat split; repeat constructor; try discriminate.
 Qed.
